@@ -81,7 +81,7 @@ _mk("C10",
     extra_tb=[TB_FLOAT, "strconv float text / encoding/json text (oracles answered by the harness)"], exhaustive=True)
 
 _mk("C11",
-    ["Platypus.Properties.C11", "Platypus.Properties.C10"],
+    ["Platypus.Properties.C11", "Platypus.Properties.C11Contracts", "Platypus.Properties.C10"],
     rule="matrix: 20 subjects (absent; variable of every type; field of every type incl. 2^53+1, max int64, numeric/JSON/bad-JSON/bad-URL strings; tag; variable shadowing a field) "
          "x ~100 call shapes of add_key/get_key/set_tag/drop_key/rename/cast/set_measurement/len/load_json/strfmt/printf/trim/uppercase/replace/url_decode "
          "(identifier, string literal, attribute expression, `_`, nested expressions, optional arguments, failing arguments); engines answered by the harness; strict",
@@ -125,7 +125,7 @@ _mk("C13",
     extra_tb=[TB_FLOAT])
 
 _mk("C14",
-    ["Platypus.Properties.C14", "Platypus.Properties.C14Prefix"],
+    ["Platypus.Properties.C14", "Platypus.Properties.C14Prefix", "Platypus.Properties.C14PrefixV2"],
     rule="v1: 12 endless/nested empty-bodied loop programs (incl. inside a callee), 5 hand-written loops whose loop clause has a visible effect with continue/break in nested ifs and use() in the body, "
          "2 programs with use() nested inside a larger expression (known finding), and N random loop-bearing two-script programs; v2: 6 endless loops, 5 loops with continue/break and a visible loop clause, N random v2 programs; "
          "each x every poll index k = 1..min(polls of the uninterrupted run, 40 quick / 200 thorough): "
@@ -135,7 +135,7 @@ _mk("C14",
     level_text="Kernel-checked for every script in which use() occurs only as a statement of its own (and no statement node sits inside an expression), every world, oracle, map order, fuel and every pair of firing indices k <= k' (or never): "
                "if both runs end, the earlier-interrupted run's effects are a prefix of the other's; an error of the interrupted run is raised before the observation and is the same error the other run raises; once the signal was observed the run ends ok and "
                "every block, loop head, loop tail and callee entered afterwards performs one poll and nothing else. nested_use_breaks_prefix proves the hypothesis is needed (known finding). Tied to runtime.go/runtimev2 by programs x every firing index.",
-    level_note="The theorem is about the v1 model; v2 is covered by the correspondence run and the prefix specification on its outputs, not by a theorem. Effects = probe and output events (world.trace); point and heap are shown unchanged after the observation only by the explicit nothing_after_observation equations.",
+    level_note="effects_prefix is proved for the v1 model and effects_prefix_v2 (with lockstep, observed_implies_ok, nothing_after_observation, empty_loop_stops) for the v2 model, under the hypothesis that no if/for node sits inside an expression (stmt_in_expr_breaks_prefix_v2 shows it is needed). Effects = probe and output events (world.trace); point and heap are shown unchanged after the observation only by the explicit nothing_after_observation equations.",
     extra_tb=[TB_FLOAT])
 
 _mk("C09",
